@@ -605,6 +605,40 @@ def variants(code, n):
     return [v for v in dict.fromkeys(out) if v and v != base]
 
 
+SEP = {"en": ("point", "."), "fr": ("virgule", ","), "es": ("coma", ","), "pt": ("vírgula", ","), "it": ("virgola", ","), "de": ("komma", ","), "nl": ("komma", ",")}
+ZERO = {"en": "zero", "fr": "zéro", "es": "cero", "pt": "zero", "it": "zero", "de": "null", "nl": "nul"}
+
+
+def decimals(code, seed):
+    """C05: spell(n) + separator word + fraction (digit by digit in en/de; zeros then a spelled number elsewhere) -> n<mark>d"""
+    rnd = random.Random(seed + 31)
+    ns = [0, 1, 2, 3, 9, 10, 12, 20, 21, 99, 100, 101, 120, 999, 1000, 1200, 2019, 15000, 1000000] + [rnd.randrange(10 ** rnd.randint(1, 9)) for _ in range(60)]
+    ds = ["0", "5", "05", "50", "14", "00", "005", "500", "236", "09", "90", "001", "1415", "000001", "75", "99", "100", "07"] + \
+         ["".join(rnd.choice("0123456789") for _ in range(rnd.randint(1, 6))) for _ in range(40)]
+    word, mark = SEP[code]
+    digitw = DIGITS[code].split()
+    out = []
+    for n in ns:
+        sp = SPELL[code](n)
+        if sp is None:
+            continue
+        for d in dict.fromkeys(ds):
+            if code in ("en", "de"):
+                frac = " ".join(digitw[int(ch)] for ch in d)
+            else:
+                k = len(d) - len(d.lstrip("0"))
+                rest = d[k:]
+                parts = [ZERO[code]] * k
+                if rest:
+                    r = SPELL[code](int(rest))
+                    if r is None:
+                        continue
+                    parts.append(r)
+                frac = " ".join(parts)
+            out.append(f"{code}\t{sp} {word} {frac}\t{n}{mark}{d}")
+    return out
+
+
 DIGITS = {"en": "zero one two three four five six seven eight nine", "fr": "zéro un deux trois quatre cinq six sept huit neuf",
           "es": "cero uno dos tres cuatro cinco seis siete ocho nueve", "pt": "zero um dois três quatro cinco seis sete oito nove",
           "it": "zero uno due tre quattro cinque sei sette otto nove", "de": "null eins zwei drei vier fünf sechs sieben acht neun",
@@ -634,6 +668,10 @@ def dictate(code, seed):
 
 
 if __name__ == "__main__":
+    if len(sys.argv) > 2 and sys.argv[2] == "decimals":
+        for code in (sys.argv[3:] or list(SPELL)):
+            print("\n".join(decimals(code, int(sys.argv[1]))))
+        sys.exit(0)
     if len(sys.argv) > 2 and sys.argv[2] == "dictate":
         for code in (sys.argv[3:] or list(SPELL)):
             print("\n".join(dictate(code, int(sys.argv[1]))))
